@@ -109,6 +109,21 @@ def reduce_axis(I, t: Tensor, axis, f, init):
     return Tensor(out_shape, data)
 
 
+_NONE = object()
+
+
+def tensor_extremum(I, t, name, axis):
+    """min / max of a fixed array, over everything (axis None) or along one axis"""
+    if t.size == 0:
+        raise PyExc("ValueError", ("zero-size array to reduction operation",))
+    if axis is None:
+        return I.builtins[name].py_call(I, [list(t.data)], {})
+    if not isinstance(axis, int):
+        raise Unsupported(f"{name} along axis {axis!r}")
+    two = lambda p_, q_: q_ if p_ is _NONE else I.builtins[name].py_call(I, [[p_, q_]], {})
+    return reduce_axis(I, t, axis, two, _NONE)
+
+
 def np_sum(I, a, k):
     x = a[0]
     axis = a[1] if len(a) > 1 else k.get("axis")
@@ -166,16 +181,26 @@ def tensor_getattr(I, t: Tensor, name):
         return Builtin("ndarray.tolist", lambda I_, a, k: t.tolist())
     if name == "array":   # ase Cell.array on a plain tensor model
         return t
-    if name == "max":
-        return Builtin("ndarray.max", lambda I_, a, k: I_.builtins["max"].py_call(I_, [list(t.data)], {}))
-    if name == "min":
-        return Builtin("ndarray.min", lambda I_, a, k: I_.builtins["min"].py_call(I_, [list(t.data)], {}))
+    if name in ("max", "min"):
+        return Builtin("ndarray." + name, lambda I_, a, k, name=name: tensor_extremum(I_, t, name, k.get("axis", a[0] if a else None)))
     if name == "reshape":
         def reshape(I_, a, k):
             shp = a[0] if len(a) == 1 and isinstance(a[0], (tuple, list)) else tuple(a)
             return Tensor(tuple(shp), list(t.data), t.dtype)
         return Builtin("ndarray.reshape", reshape)
-    raise PyExc("AttributeError", (f"'ndarray' object has no attribute '{name}'",))
+    if name in ("ravel", "flatten"):
+        return Builtin("ndarray." + name, lambda I_, a, k: Tensor((t.size,), list(t.data), t.dtype))
+    if name == "all":
+        def all_(I_, a, k):
+            if k or a:
+                raise Unsupported("ndarray.all with an axis")
+            acc = True
+            for v in t.data:
+                acc = ops.sym_and(acc, v if kind_of(v) == "bool" else ops.compare(I_, "NotEq", v, 0))
+            return acc
+        return Builtin("ndarray.all", all_)
+    # numpy arrays have many more attributes than are modelled: an unknown one is out of reach, not an AttributeError
+    raise Unsupported(f"ndarray.{name} is not modelled")
 
 
 def scalar_getattr(I, v, name):
@@ -636,9 +661,7 @@ def make_numpy(extra=None):
             if hasattr(x, "np_" + name):
                 return getattr(x, "np_" + name)(I)
             t = as_tensor(I, x)
-            if t.size == 0:
-                raise PyExc("ValueError", ("zero-size array to reduction operation",))
-            return I.builtins[name].py_call(I, [list(t.data)], {})
+            return tensor_extremum(I, t, name, k.get("axis", a[1] if len(a) > 1 else None))
         return f
     A["min"] = Builtin("np.min", np_minmax("min"))
     A["max"] = Builtin("np.max", np_minmax("max"))
@@ -698,6 +721,142 @@ def make_numpy(extra=None):
             acc = ops.sym_and(acc, ops.compare(I, "Eq", p, q))
         return acc
     A["array_equal"] = Builtin("np.array_equal", array_equal)
+
+    # ---- a batch of plain array functions on fixed-shape arrays (all covered by tools/conformance_numpy.py)
+    def _concrete(t, what):
+        if any(isinstance(e, Sym) for e in t.data):
+            raise Unsupported(f"{what} of symbolic entries")
+        return t
+
+    def _ew2(f):
+        def g(I, a, k):
+            if k:
+                raise Unsupported("keyword arguments of an elementwise function")
+            x, y = as_tensor(I, a[0]), as_tensor(I, a[1])
+            from ..values import broadcast_get, broadcast_shapes, iter_idx as _it
+            shp = broadcast_shapes(x.shape, y.shape)
+            data = [f(I, broadcast_get(x, shp, i_), broadcast_get(y, shp, i_)) for i_ in _it(shp)]
+            return Tensor(shp, data) if shp else data[0]
+        return g
+
+    def _pick(I, p_, q_, larger):
+        c = ops.compare(I, "GtE" if larger else "LtE", p_, q_)
+        if isinstance(c, bool):
+            return p_ if c else q_
+        return mk(z3.If(c.t, to_z3(p_, "real"), to_z3(q_, "real")))
+
+    def _set(name, fn):
+        if name not in A:
+            A[name] = Builtin("np." + name, fn)
+    _set("maximum", _ew2(lambda I, p_, q_: _pick(I, p_, q_, True)))
+    _set("minimum", _ew2(lambda I, p_, q_: _pick(I, p_, q_, False)))
+    _set("dot", lambda I, a, k: ops.matmul(I, as_tensor(I, a[0]), as_tensor(I, a[1])) if not k else (_ for _ in ()).throw(Unsupported("np.dot(out=)")))
+    _set("matmul", lambda I, a, k: ops.matmul(I, as_tensor(I, a[0]), as_tensor(I, a[1])) if not k else (_ for _ in ()).throw(Unsupported("np.matmul kwargs")))
+
+    def outer(I, a, k):
+        x, y = as_tensor(I, a[0]), as_tensor(I, a[1])
+        return Tensor((x.size, y.size), [ops.binop(I, "*", p_, q_) for p_ in x.data for q_ in y.data])
+    _set("outer", lambda I, a, k: outer(I, a, k) if not k else (_ for _ in ()).throw(Unsupported("np.outer kwargs")))
+    _set("square", lambda I, a, k: ops.binop(I, "*", a[0], a[0]) if not k else (_ for _ in ()).throw(Unsupported("np.square kwargs")))
+    _set("copy", lambda I, a, k: as_tensor(I, a[0]).copy() if not k else (_ for _ in ()).throw(Unsupported("np.copy kwargs")))
+    _set("transpose", lambda I, a, k: tensor_getattr(I, as_tensor(I, a[0]), "T") if not k and len(a) == 1 else (_ for _ in ()).throw(Unsupported("np.transpose with axes")))
+    _set("ravel", lambda I, a, k: Tensor((as_tensor(I, a[0]).size,), list(as_tensor(I, a[0]).data), as_tensor(I, a[0]).dtype) if not k else (_ for _ in ()).throw(Unsupported("np.ravel kwargs")))
+    _set("identity", lambda I, a, k: Tensor((a[0], a[0]), [1 if i == j else 0 for i in range(a[0]) for j in range(a[0])]) if not k and isinstance(a[0], int) else (_ for _ in ()).throw(Unsupported("np.identity")))
+
+    def zeros_like(I, a, k):
+        if k:
+            raise Unsupported("np.zeros_like kwargs")
+        t = as_tensor(I, a[0])
+        return Tensor(t.shape, [False if t.dtype == "bool" else 0] * t.size, t.dtype)
+    _set("zeros_like", zeros_like)
+
+    def prod(I, a, k):
+        t = as_tensor(I, a[0])
+        axis = k.get("axis", a[1] if len(a) > 1 else None)
+        if set(k) - {"axis"}:
+            raise Unsupported("np.prod kwargs")
+        return reduce_axis(I, t, axis, lambda p_, q_: ops.binop(I, "*", p_, q_), 1)
+    _set("prod", prod)
+
+    def stack_like(kind):
+        def f(I, a, k):
+            parts = [as_tensor(I, x) for x in a[0]]
+            axis = k.get("axis", a[1] if len(a) > 1 else 0)
+            if set(k) - {"axis"} or not parts:
+                raise Unsupported(f"np.{kind} kwargs")
+            if kind == "stack":
+                if any(p_.shape != parts[0].shape for p_ in parts) or axis not in (0, 1) or parts[0].ndim != 1:
+                    raise Unsupported("np.stack of these shapes")
+                n, m = len(parts), parts[0].shape[0]
+                if axis == 0:
+                    return Tensor((n, m), [e for p_ in parts for e in p_.data])
+                return Tensor((m, n), [parts[j].data[i] for i in range(m) for j in range(n)])
+            if kind in ("hstack", "concatenate") and all(p_.ndim == 1 for p_ in parts):
+                return Tensor((sum(p_.size for p_ in parts),), [e for p_ in parts for e in p_.data])
+            if kind in ("vstack", "concatenate") and all(p_.ndim == 2 and p_.shape[1] == parts[0].shape[1] for p_ in parts) and (kind == "vstack" or axis == 0):
+                return Tensor((sum(p_.shape[0] for p_ in parts), parts[0].shape[1]), [e for p_ in parts for e in p_.data])
+            if kind == "hstack" and all(p_.ndim == 2 and p_.shape[0] == parts[0].shape[0] for p_ in parts):
+                rows = parts[0].shape[0]
+                return Tensor((rows, sum(p_.shape[1] for p_ in parts)), [p_.get((r_, c_)) for r_ in range(rows) for p_ in parts for c_ in range(p_.shape[1])])
+            raise Unsupported(f"np.{kind} of these shapes")
+        return f
+    for kind in ("stack", "hstack", "vstack", "concatenate"):
+        _set(kind, stack_like(kind))
+
+    def flip(I, a, k):
+        t = as_tensor(I, a[0])
+        if k or len(a) > 1 or t.ndim != 1:
+            raise Unsupported("np.flip of this form")
+        return Tensor(t.shape, list(reversed(t.data)), t.dtype)
+    _set("flip", flip)
+
+    def count_nonzero(I, a, k):
+        t = _concrete(as_tensor(I, a[0]), "count_nonzero")
+        if k or len(a) > 1:
+            raise Unsupported("np.count_nonzero with an axis")
+        return sum(1 for e in t.data if e)
+    _set("count_nonzero", count_nonzero)
+
+    def sort_(I, a, k):
+        t = _concrete(as_tensor(I, a[0]), "sort")
+        if k or len(a) > 1 or t.ndim != 1:
+            raise Unsupported("np.sort of this form")
+        return Tensor(t.shape, sorted(t.data), t.dtype)
+    _set("sort", sort_)
+
+    def argsort(I, a, k):
+        t = _concrete(as_tensor(I, a[0]), "argsort")
+        if k or len(a) > 1 or t.ndim != 1 or len(set(t.data)) != len(t.data):
+            raise Unsupported("np.argsort of this form (ties / axis)")
+        return Tensor(t.shape, sorted(range(t.size), key=lambda i_: t.data[i_]), "int")
+    _set("argsort", argsort)
+
+    def repeat(I, a, k):
+        t = as_tensor(I, a[0])
+        if k or t.ndim != 1 or not isinstance(a[1], int):
+            raise Unsupported("np.repeat of this form")
+        return Tensor((t.size * a[1],), [e for e in t.data for _ in range(a[1])], t.dtype)
+    _set("repeat", repeat)
+
+    def tile(I, a, k):
+        t = as_tensor(I, a[0])
+        if k or t.ndim != 1 or not isinstance(a[1], int):
+            raise Unsupported("np.tile of this form")
+        return Tensor((t.size * a[1],), list(t.data) * a[1], t.dtype)
+    _set("tile", tile)
+
+    def reshape(I, a, k):
+        t = as_tensor(I, a[0])
+        shp = a[1] if isinstance(a[1], (tuple, list)) else (a[1],)
+        if k or not all(isinstance(x, int) and x >= 0 for x in shp):
+            raise Unsupported("np.reshape of this form")
+        n = 1
+        for x in shp:
+            n *= x
+        if n != t.size:
+            raise PyExc("ValueError", ("cannot reshape array",))
+        return Tensor(tuple(shp), list(t.data), t.dtype)
+    _set("reshape", reshape)
 
     if extra:
         A.update(extra)
